@@ -195,7 +195,8 @@ def exact_abs_diff(a, b):
     return abs(Fraction(a) - Fraction(b))
 
 
-NP_TYPES = {"int64": np.int64, "int32": np.int32, "float32": np.float32, "float64": np.float64}
+NP_TYPES = {"int64": np.int64, "int32": np.int32, "float32": np.float32, "float64": np.float64,
+            "int8": np.int8, "uint8": np.uint8, "int16": np.int16, "uint16": np.uint16, "uint32": np.uint32}
 
 
 def typed_num(x, t):
@@ -300,6 +301,15 @@ def snap_bound_huge(cfg, value=0.0):
         return max(abs(float(value)), abs(cfg["lower"]), abs(cfg["upper"]), (cfg["upper"] - cfg["lower"]) / 2.0) / cfg["sens"] >= 5e306
 
 
+def snap_width_overflows(cfg):
+    """finite bounds whose WIDTH upper - lower is not a finite double (e.g. (-1e308, 1e308)): not a Snapping configuration (the noise is
+    calibrated to the width); the constructor refuses it with ValueError"""
+    lo, hi = pynum(cfg["lower"]), pynum(cfg["upper"])
+    if not all(isinstance(x, (int, float)) and not isinstance(x, bool) and math.isfinite(x) for x in (lo, hi)):
+        return False
+    return not math.isfinite(float(hi) - float(lo))
+
+
 def narrow_int_domain(cfg):
     """Python-int bounds closer together than one double spacing at their magnitude: the reflections of LaplaceFolded (double
     arithmetic) can never land inside"""
@@ -326,6 +336,11 @@ def direct_one(mech, cfg, value, rngspec):
         return None, None
     if v and mech == "GeometricFolded" and v[0].endswith(":raises") and "Bounds must be integer or half-integer" in v[1]:
         INFO["refused_configuration:GeometricFolded:not-a-half-integer"] += 1
+        return None, None
+    if v and mech == "Snapping" and v[0].endswith(":raises") and "ValueError" in v[1] and "Bounds must be finite" in v[1] and \
+            snap_width_overflows(cfg):
+        # finite bounds whose width overflows are refused loudly (constructor, and again at randomise): not a configuration
+        INFO["refused_configuration:Snapping:width-not-finite"] += 1
         return None, None
     if v and mech == "GeometricFolded" and v[0].endswith(":out-of-range") and near_integer_bound_region(cfg, out):
         return ("C12:geometric-folded:near-integer-bound:out-of-range", v[1]), out
@@ -378,6 +393,12 @@ def _direct_one(mech, cfg, value, rngspec):
     else:
         if not isinstance(out, numbers.Real):
             return (f"C12:{p}:type", f"{desc} returned {out!r} of type {type(out).__name__}"), out
+        if out != out and mech == "Snapping" and snap_width_overflows(cfg):
+            # NOT the known region below: there the width is still a finite double; here upper - lower = inf and the configuration
+            # should never have been accepted
+            return ("C12:Snapping:infinite-width-accepted:nan",
+                    f"{desc} returned NaN: the bounds are finite but their width upper - lower overflows to inf; such a domain must be "
+                    f"refused with ValueError (the noise is calibrated to the width)"), out
         if out != out and mech == "Snapping" and snap_bound_huge(cfg, value):
             return ("C12:Snapping:huge-finite-width:nan",
                     f"{desc} returned NaN (effective epsilon 0: scaled bound (upper-lower)/2/sensitivity >= 5e306)"), out
@@ -1087,6 +1108,18 @@ def gen_near_half(r):
     else:
         spec = {"uniforms": [r.choice([0.2, 0.8, 0.3, 0.7, 0.05, 0.95, r.u01()]), r.u01()]}
     return "GeometricFolded", cfg, value, spec
+
+
+def gen_snap_overflow(r):
+    """Snapping on FINITE bounds of opposite signs, |lower|, |upper| in [9e307, 1.79e308]: the width upper - lower is not a finite
+    double, the configuration must be refused (ValueError) - or, if it is accepted, still return values inside the domain"""
+    lo = -r.choice([9e307, 1e308, 1.7e308, 1.79e308, 1.7976931348623157e308, r.uniform(9e307, 1.79e308)])
+    hi = r.choice([9e307, 9.5e307, 1e308, 1.79e308, 1.7976931348623157e308, r.uniform(9e307, 1.79e308)])
+    if r.chance(0.15):
+        lo, hi = r.choice([(-1.7e308, 1.0e307), (-1.0e307, 1.7e308), (-9e307, 9.5e307), (-1e308, 1e308)])
+    cfg = {"eps": r.choice([1.0, 0.1, 10.0, 1e-4, 50.0, INF]), "sens": r.choice([1.0, 1.0, 1e6, 1e300, 1e-3, 0.0]), "lower": lo, "upper": hi,
+           "dk": "width-overflow"}
+    return "Snapping", cfg, r.choice([0.5, lo, hi, 0.0, lo / 2, hi / 2, r.uniform(-1e3, 1e3)]), {"seed": r.randint(0, 2 ** 31 - 2)}
 
 
 def gen_snap_wide(r):
